@@ -772,3 +772,85 @@ def rule_derives(ctx):
     else:
         obs.append(bad('NORM-ID', 'Normalization::field_type', 'the type-name normalizer may change "ID"', nf[0].loc if nf else '', 'ID fields lose their coercion under normalization'))
     return obs
+
+
+@rule('DERIVE-KEEP')
+def rule_derive_keep(ctx):
+    """the user's derive lists reach the generated types unchanged: an accessor of GraphQLClientCodegenOptions that
+    filters a list may only drop the trait it prepends itself (`once("Deserialize").chain(rest.filter(!= "Deserialize"))`)"""
+    obs = []
+    n = 0
+    for fn in ctx.crate('codegen').all_fns():
+        if fn.from_macro or not (fn.d.get('impl_self') or '').endswith('GraphQLClientCodegenOptions'):
+            continue
+        t = ctx.pv.eval(fn, fn.body, H.sym_env(fn), 0)
+        if not ({'GraphQLClientCodegenOptions.variables_derives', 'GraphQLClientCodegenOptions.response_derives'} & TM.fields_in(t)) or 'Iterator' not in fn.d.get('output', ''):
+            continue
+        n += 1
+        inst = short(fn.path)
+        # what the accessor adds itself
+        added = set()
+        excluded = set()
+        positional = set()
+        for f_, nd in H.deep_nodes(ctx, fn, fn.body, 2):
+            if nd['k'] == 'call' and any(p_.endswith('iter::once') for p_ in H.callee_paths(nd)):
+                added |= {x['lit']['v'] for x in walk(nd['args']) if x['k'] == 'lit' and x['lit']['lk'] == 'str'}
+            if nd['k'] == 'mcall' and nd['method'] in ('filter', 'filter_map', 'skip_while', 'take_while') and nd['args']:
+                for x in walk(nd['args'][0]):
+                    if x['k'] == 'lit' and x['lit']['lk'] == 'str':
+                        excluded.add(x['lit']['v'])
+                    if x['k'] == 'path' and x['res'].get('r') == 'def' and str(x['res'].get('dk', '')).startswith(('Const', 'Static')):
+                        for cf in ctx.pv.fn_by_path.get(norm_path(x['res']['path']), []):
+                            excluded |= {y['lit']['v'] for y in walk(cf.body) if y['k'] == 'lit' and y['lit']['lk'] == 'str'}
+            if nd['k'] == 'mcall' and nd['method'] in ('take', 'skip', 'step_by', 'nth', 'dedup') and any('Iterator::' in p_ or 'vec::Vec' in p_ for p_ in H.callee_paths(nd)):
+                positional.add(nd['method'])
+        extra = excluded - added
+        if extra or positional:
+            obs.append(bad('DERIVE-KEEP', inst, 'the accessor drops %s from the user\'s list (it prepends only %s)' % (sorted(extra) or sorted(positional), sorted(added)), fn.loc,
+                           'a trait written in variables_derives / response_derives never reaches the generated types'))
+        else:
+            obs.append(ok('DERIVE-KEEP', inst, 'user list kept; only the prepended %s is de-duplicated' % sorted(added & excluded), fn.loc))
+    if n < 2:
+        obs.append(bad('DERIVE-KEEP', 'floor', 'anchor-missing: expected the variables and response derive accessors, found %d' % n))
+    return obs
+
+
+@rule('ID-INDEX')
+def rule_id_index(ctx):
+    """ids are positions in the stored vectors (`OperationId(i)` indexes `Query::operations`): wherever an `enumerate()`
+    index over a stored vector becomes an id, nothing may narrow or reorder the vector before the enumerate"""
+    obs = []
+    n = 0
+    NEUTRAL = {'iter', 'iter_mut', 'into_iter', 'as_slice', 'as_mut_slice', 'as_ref', 'as_mut', 'deref', 'deref_mut', 'by_ref', 'borrow', 'borrow_mut'}
+    for fn in ctx.crate('codegen').all_fns():
+        np_ = norm_path(fn.path)
+        if fn.from_macro or not (np_.startswith('graphql_client_codegen::query') or np_.startswith('graphql_client_codegen::schema')):
+            continue
+        for en in fn.walk(lambda x: x['k'] == 'mcall' and x['method'] == 'enumerate'):
+            chain = []
+            cur = en['recv']
+            while cur is not None:
+                if cur.get('k') == 'mcall':
+                    chain.append(cur['method'])
+                    cur = cur['recv']
+                elif cur.get('k') in ('ref', 'wrap', 'unary'):
+                    cur = cur.get('e')
+                else:
+                    break
+            if cur is None or cur.get('k') != 'field' or not cur.get('adt', '').endswith(('query::Query', 'schema::Schema')):
+                continue
+            # does the index become an id?  (an `..Id` constructor / `..Id::new` in the same fn fed from the enumerate)
+            ids = [x for x in walk(fn.body) if x['k'] == 'call' and x.get('callee') and re.search(r'Id(::new)?$', x['callee']['path'])]
+            if not ids:
+                continue
+            n += 1
+            inst = '%s/%s' % (short(fn.path), cur['name'])
+            extra = [m for m in chain if m not in NEUTRAL]
+            if extra:
+                obs.append(bad('ID-INDEX', inst, 'ids are taken from enumerate() over `%s` after %s: the index is a position in the narrowed view, not in the vector' % (cur['name'], extra), en.get('sp', ''),
+                               'the id names another element: data of one operation/fragment is attached to another'))
+            else:
+                obs.append(ok('ID-INDEX', inst, 'id = position in the stored vector `%s` (enumerate directly over it)' % cur['name'], en.get('sp', '')))
+    if n < 2:
+        obs.append(bad('ID-INDEX', 'floor', 'anchor-missing: expected the fragment/operation lookups by enumerate over stored vectors, found %d' % n))
+    return obs
